@@ -15,8 +15,10 @@ import XlModel.Lemmas.SaveGrid3
 import XlModel.Lemmas.SaveGrid4
 import XlModel.Lemmas.SaveCols2
 import XlModel.Lemmas.SaveCols3
+import XlModel.Lemmas.SaveCols4
 import XlModel.Lemmas.SaveBook
 import XlModel.Lemmas.SaveBook2
+import XlModel.Lemmas.SaveBook3
 import XlModel.Lemmas.SaveCols
 import XlModel.Generated.FactsC01
 
@@ -220,6 +222,13 @@ theorem trim_densify_second_cycle (s : List Row) (h : Dense s) :
   obtain ⟨s'', h2, hd2, ha2, hm2⟩ := trim_densify_obs s' hd1
   exact ⟨s', s'', h1, h2, hd2, fun i j => (ha2 i j).trans (ha1 i j), hm2.trans hm1⟩
 
+/-- FIXED FINDING tie: `namespaceStrictToTransitional` (applied to every part that is read) no longer
+replaces the Strict namespace URLs in the whole part — which rewrote cell text, hyperlink targets and any
+other user text holding such a URL — but only in the values of `xmlns`, `xmlns:*` and `Type` attributes.
+This is what lets the XML layer of `open_save_obs` (`x`) be the identity on character data. -/
+theorem facts_ns_ok :
+    Facts.C01.nsRewriteWholePart = false ∧ Facts.C01.nsRewriteAttrs = ["Type", "xmlns", "xmlns:*"] := by decide
+
 /-! ## the workbook: `open_save_obs` and `save_open_fixpoint` (DESIGN §4/C01) -/
 
 /-- column clause for reopened files: the preservation result for sorted, pairwise disjoint column
@@ -354,6 +363,25 @@ theorem inv_step_write (s : SaveBook.Sheet) (h : SaveBook.SheetInv s) (i j : Nat
   split
   · exact hleg _ (hl i j)
   · exact hl a b
+
+/-- **inv_step (column setters)**: after any column setter that goes through `flatCols` (with whatever
+`replacer`) or creates the first `<cols>` entry, the in-memory list satisfies the column clause of `Inv`
+(`Wf`: ranges inside the sheet, pairwise non-overlapping) — for *any* previous list with columns ≥ 1, so
+the clause holds on every state reached through the column setters, also from an opened file. -/
+theorem inv_step_cols (cols : Option (List SaveCols.Col)) (col : SaveCols.Col)
+    (rep : SaveCols.Attrs → SaveCols.Attrs → SaveCols.Attrs)
+    (hc : 1 ≤ col.min ∧ col.min ≤ col.max) (hcs : ∀ l, cols = some l → ∀ e ∈ l, 1 ≤ e.min) :
+    SaveCols.Wf (SaveCols.setCols cols col rep) :=
+  SaveCols.setCols_wf cols col rep hc hcs
+
+/-- **inv_step (row-attribute setters)**: `SetRowHeight` / `SetRowVisible` / `SetRowOutlineLevel`
+(`prepareSheetXML(0,row)` + one attribute change) on any row inside the grid keep the worksheet dense and
+leave the content of every position unchanged. -/
+theorem inv_step_row_attr (rows : List Row) (h : Dense rows) (i : Nat) (hi : i < Facts.TotalRows)
+    (f : Attrs → Attrs) :
+    Dense (SaveBook.writeRowAttr rows i f) ∧
+      ∀ a b, Grid.abs (SaveBook.writeRowAttr rows i f) a b = Grid.abs rows a b :=
+  ⟨SaveBook.writeRowAttr_dense rows i f h hi, SaveBook.writeRowAttr_abs rows i f⟩
 
 /-- the modelled setters meet the conditions of `inv_step_write` -/
 theorem setInt_setBool_ok (n : Int) (b : Bool) :
